@@ -277,3 +277,181 @@ fn build(seed: u64, i: u64, p: &(&str, &str, char, char, bool), e: &(&str, &[&st
         "tags": ["grid", format!("grid_pos_{}", p.0), format!("grid_mode_{}", mode)],
     })
 }
+
+// ---------------------------------------------------------------------------------------------
+// C11: every access-chain form (and every look-alike that is not assignable) as a model: binding in
+// every scope position; data toggles and writes through the live listeners alternate.
+
+/// (expression, dependency leaves, statically assignable? Some(true/false), None = decided at run time)
+const MODEL_EXPRS: &[(&str, &[&str], Option<bool>, char)] = &[
+    ("a", &["a"], Some(true), 'r'),
+    ("obj.x", &["obj.x"], Some(true), 'r'),
+    ("obj.y.z", &["obj.y.z"], Some(true), 'r'),
+    ("obj['x']", &["obj.x"], Some(true), 'r'),
+    ("obj[s]", &["obj.x", "obj.k", "s"], Some(true), 'r'),
+    ("list[n].v", &["list.0.v", "list.1.v", "n"], Some(true), 'r'),
+    ("list[0].sub[0].v", &["list.0.sub.0.v"], Some(true), 'r'),
+    ("l2[n]", &["l2.0", "l2.1", "n"], Some(true), 'r'),
+    ("flag ? a : b", &["flag", "a", "b"], Some(true), 'r'),
+    ("flag ? obj.x : l2[n]", &["flag", "obj.x", "l2.0", "l2.1", "n"], Some(true), 'r'),
+    ("flag ? a : m.k", &["flag", "a"], None, 'r'),
+    ("flag ? [a, b][0] : b", &["flag", "a", "b"], None, 'r'),
+    ("a + 1", &["a"], Some(false), 'r'),
+    ("'lit'", &[], Some(false), 'r'),
+    ("!a", &["a"], Some(false), 'r'),
+    ("-d", &["d"], Some(false), 'r'),
+    ("a || b", &["a", "b"], Some(false), 'r'),
+    ("m.f(a)", &["a"], Some(false), 'r'),
+    ("[a, b][0]", &["a", "b"], Some(false), 'r'),
+    ("[a, b][n]", &["a", "b", "n"], Some(false), 'r'),
+    ("({p: a}).p", &["a"], Some(false), 'r'),
+    ("m.k", &[], Some(false), 'r'),
+    ("m.rows[0].v", &[], Some(false), 'r'),
+    ("item.v", &["list.0.v", "list.1.v"], Some(true), 'i'),
+    ("item.sub[0].v", &["list.0.sub.0.v"], Some(true), 'i'),
+    ("item['v']", &["list.0.v", "list.1.v"], Some(true), 'i'),
+    ("flag ? item.v : a", &["flag", "list.0.v", "a"], Some(true), 'i'),
+    ("flag ? item.v : index", &["flag", "list.0.v"], None, 'i'),
+    ("index", &[], Some(false), 'i'),
+    ("item.v + 1", &["list.0.v"], Some(false), 'i'),
+    ("list[index].v", &["list.0.v", "list.1.v"], Some(true), 'i'),
+    ("item", &["l2.0", "l2.1"], Some(true), 's'),
+    ("index", &[], Some(false), 's'),
+    ("l2[index]", &["l2.0", "l2.1"], Some(true), 's'),
+    ("item + ''", &["l2.0"], Some(false), 's'),
+];
+
+/// (name, template with @B@ = the whole binding attribute, scope kind of @E@: r root / i record item / s scalar item,
+///  items assignable in this position?)
+const MODEL_POSITIONS: &[(&str, &str, char, Option<bool>)] = &[
+    ("root", "<input @B@/>", 'r', Some(true)),
+    ("in-if", "<block wx:if=\"{{ c }}\"><input @B@/></block>", 'r', Some(true)),
+    ("in-for-root-expr", "<block wx:for=\"{{ l2 }}\"><input @B@/></block>", 'r', Some(true)),
+    ("child", "<mchild @C@/>", 'r', Some(true)),
+    ("for-keyed", "<block wx:for=\"{{ list }}\" wx:key=\"k\"><input @B@/></block>", 'i', Some(true)),
+    ("for-unkeyed", "<view wx:for=\"{{ list }}\"><input @B@/></view>", 'i', Some(true)),
+    ("for-renamed", "<view wx:for=\"{{ list }}\" wx:for-item=\"item\" wx:for-index=\"index\" wx:key=\"k\"><block wx:if=\"{{ c }}\"><input @B@/></block></view>", 'i', Some(true)),
+    ("for-in-for", "<block wx:for=\"{{ l2 }}\" wx:for-item=\"o\" wx:for-index=\"oi\"><block wx:for=\"{{ list }}\" wx:key=\"k\"><input @B@/></block></block>", 'i', Some(true)),
+    ("for-cond-list", "<block wx:for=\"{{ flag ? list : [] }}\" wx:key=\"k\"><input @B@/></block>", 'i', Some(true)),
+    ("for-scalars", "<block wx:for=\"{{ l2 }}\"><input @B@/></block>", 's', Some(true)),
+    ("for-scalars-keyed", "<block wx:for=\"{{ l2 }}\" wx:key=\"*this\"><input @B@/></block>", 's', Some(true)),
+    ("for-literal-list", "<block wx:for=\"{{ [a, b] }}\"><input @B@/></block>", 's', Some(false)),
+    ("for-cond-literal", "<block wx:for=\"{{ flag ? l2 : [a, b] }}\"><input @B@/></block>", 's', None),
+    ("for-script-rows", "<block wx:for=\"{{ m.rows }}\" wx:key=\"k\"><input @B@/></block>", 'i', Some(false)),
+    ("for-in-script-rows", "<block wx:for=\"{{ m.rows }}\" wx:for-item=\"row\"><block wx:for=\"{{ row.sub }}\"><input @B@/></block></block>", 'i', Some(false)),
+];
+
+const WXS11: &str = "<wxs module=\"m\">exports.f = function(a){ return 'f(' + a + ')' }; exports.k = 7; exports.rows = [{k: 1, v: 'r1', sub: [{k: 11, v: 's1'}]}, {k: 2, v: 'r2', sub: []}]</wxs>";
+
+/// schedules per (position, expression) pair
+const VARIANTS11: u64 = 8;
+
+pub fn count11() -> u64 {
+    let mut n = 0;
+    for p in MODEL_POSITIONS {
+        for e in MODEL_EXPRS {
+            if p.2 == e.3 {
+                n += 1;
+            }
+        }
+    }
+    n * VARIANTS11
+}
+
+pub fn world11(seed: u64, i: u64) -> Value {
+    let mut k = i / VARIANTS11;
+    for p in MODEL_POSITIONS {
+        for e in MODEL_EXPRS {
+            if p.2 != e.3 {
+                continue;
+            }
+            if k == 0 {
+                return build11(seed, i, p, e);
+            }
+            k -= 1;
+        }
+    }
+    panic!("grid index out of range");
+}
+
+fn build11(seed: u64, i: u64, p: &(&str, &str, char, Option<bool>), e: &(&str, &[&str], Option<bool>, char)) -> Value {
+    let mut r = Rng::fork(seed, &format!("grid11.{}", i));
+    // is a path expected? only when both the expression form and the position say so for certain
+    let root_only_expr = !e.0.contains("item") && !e.0.contains("index");
+    let expect: Option<bool> = match (e.2, p.3) {
+        (Some(false), _) => Some(false),
+        (Some(true), _) if root_only_expr => Some(true),
+        (Some(true), Some(true)) => Some(true),
+        (Some(true), Some(false)) if e.0 == "list[index].v" || e.0 == "l2[index]" => Some(true),
+        // a conditional with a root-data branch keeps that branch's path
+        (Some(true), Some(false)) if e.0.contains('?') => None,
+        (Some(true), Some(false)) => Some(false),
+        _ => None,
+    };
+    // the names `nv`/`nval` assert "no path"; `value`/`val` assert nothing beyond get-put
+    let native = if expect == Some(false) { "model:nv" } else { "model:value" };
+    let child = if expect == Some(false) { "model:nval" } else { "model:val" };
+    let src = format!(
+        "{}{}",
+        WXS11,
+        p.1.replace("@B@", &format!("{}=\"{{{{ {} }}}}\"", native, e.0)).replace("@C@", &format!("{}=\"{{{{ {} }}}}\"", child, e.0))
+    );
+    let leaves: Vec<(Value, Value, Value)> = e.1.iter().map(|id| leaf(id)).collect();
+    let mut state = vec![false; leaves.len()];
+    let mut schedule: Vec<Value> = vec![];
+    let mut u = 900;
+    for round in 0..8 {
+        // toggle a seeded subset of the leaves, then write through listeners
+        let mut any = false;
+        for (j, l) in leaves.iter().enumerate() {
+            if r.chance(0.5) {
+                state[j] = !state[j];
+                let v = if state[j] { l.2.clone() } else { l.1.clone() };
+                schedule.push(json!(["set", l.0, v]));
+                any = true;
+            }
+        }
+        if round % 3 == 2 {
+            // structure moves under the listeners
+            match r.below(4) {
+                0 => schedule.push(json!(["splice_safe", ["list"], 0, 0, [{"k": 50 + round, "v": format!("n{}", round), "w": "x", "sub": []}]])),
+                1 => schedule.push(json!(["reorder", ["list"], "reverse"])),
+                2 => schedule.push(json!(["splice_safe", ["l2"], 0, 0, [format!("z{}", round)]])),
+                _ => schedule.push(json!(["reorder", ["l2"], "rotate"])),
+            }
+            any = true;
+        }
+        if any {
+            schedule.push(json!(["flush"]));
+        }
+        let writes = r.range(1, 3);
+        for _ in 0..writes {
+            u += 1;
+            schedule.push(json!(["model", r.below(8), format!("w{}", u)]));
+        }
+    }
+    let mut components = vec![];
+    let mut sources = vec![json!(["index", src])];
+    let mut using = Map::new();
+    if p.0 == "child" {
+        components.push(crate::gen::catalogue_component("mchild"));
+        sources.push(json!(["comp/mchild", crate::gen::catalogue_file("mchild").raw.unwrap_or_default()]));
+        using.insert("mchild".into(), json!("mchild"));
+    }
+    components.push(json!({"is": "root", "methods": ["h1", "h2"], "path": "index", "root": true, "using": using}));
+    json!({
+        "engine": "runtime",
+        "grid": {"position": p.0, "expression": e.0, "path_expected": expect, "leaves": e.1},
+        "components": components,
+        "config": {"backend": if r.chance(0.5) { "composed" } else { "shadow" }},
+        "data": serde_json::from_str::<Value>(D0).unwrap(),
+        "schedule": schedule,
+        "scripts": [],
+        "sources": sources,
+        "indexed_lists": [["list"], ["l2"]],
+        "script_values": {"index#m:k": 7},
+        "unreachable_fields": [],
+        "root_path": "index",
+        "tags": ["grid", format!("grid11_pos_{}", p.0)],
+    })
+}
